@@ -784,18 +784,12 @@ class CompartmentalSystem(Statement):
             return True
         if not isinstance(other, CompartmentalSystem):
             return NotImplemented
-        return (
-            self._t == other._t
-            and nx.to_dict_of_dicts(self._g) == nx.to_dict_of_dicts(other._g)
-            and self._dosing_compartments_or_empty() == other._dosing_compartments_or_empty()
+        # The graphs (compartments with their doses, lag times, bioavailabilities and inputs, and
+        # the flows) determine the system; the derived order of the dosing compartments depends on
+        # the insertion order of the nodes and is not part of the value
+        return self._t == other._t and nx.to_dict_of_dicts(self._g) == nx.to_dict_of_dicts(
+            other._g
         )
-
-    def _dosing_compartments_or_empty(self) -> tuple[Compartment, ...]:
-        # Systems without a dose (or without a central compartment) can still be compared
-        try:
-            return self.dosing_compartments
-        except ValueError:
-            return tuple()
 
     def __hash__(self):
         nodes = frozenset(self._g.nodes)
